@@ -75,6 +75,7 @@ class Analyzer:
         self.watch = None               # optional predicate on callee paths: argument values are recorded in Result.call_states
         self.closure_seeds = {}         # closure body id -> {arg local: (lo, hi)}
         self.mag = False                # C03: emit MAG obligations at loop-count / allocation-size / dimension sinks
+        self.s9_unsigned = bool(os.environ.get('VERIF_S9U'))   # evaluate unsigned-subtraction overflow checks (class S9u)
         self.prune = True               # drop facts about dead temporaries on every edge (State.prune_dead)
         self.mag_pos = frozenset()      # C03: the cursor coordinate terms reachable from the parameters (bounded on entry by C09)
         self.mag_soft = frozenset()     # C03: terms whose entry invariant is not to be relied on for loop trip counts (see interproc.analyse)
@@ -2242,6 +2243,20 @@ class Analyzer:
             self.oblige(bi, "S6", ok, "D6" if ok else None, self.describe(t), t,
                         "signed division overflow: dividend %s may be the type minimum while divisor %s may be -1" % (self.vs(a), self.vs(b)), None)
             return [(t["target"], st)]
+        if ak == "overflow:Sub" and self.s9_unsigned and len(t.get("ops", ())) == 2:
+            # opt-in (debug-build semantics): an unsigned subtraction must not go below zero.  Nothing is assumed afterwards.
+            ta = self.op_type(t["ops"][0])
+            r = self.ty_range(ta) if ta is not None else None
+            if r is not None and r[0] == 0:
+                a, _ = self.eval_op(st, t["ops"][0])
+                b, _ = self.eval_op(st, t["ops"][1])
+                if a[0] in ("n", "iv") and b[0] in ("n", "iv"):
+                    cons = [(b, a, 0)]
+                    ok, un = self.conj_check(st, cons)
+                    self.oblige(bi, "S9u", ok, "D2" if ok else None, self.describe(t), t,
+                                "unsigned subtraction %s - %s may go below zero (panics in a build with overflow checks)" % (self.vs(a), self.vs(b)),
+                                None if ok else self.conj_lift(un))
+                    return [(t["target"], st)]
         if ak.startswith("overflow"):
             # release semantics: the check does not exist; nothing may be assumed from it
             if self.collect:
